@@ -66,6 +66,14 @@ CLAIMED = {
         "DESIGN.md 4 C11",
         "",
     ),
+    "C15": (
+        "explicit-state enumeration of section operation sequences + Hypothesis sequences, emitted bytes replayed on a terminal emulator and compared with a stacked-contents model",
+        "All applicable sequences of create/write_line/overwrite/clear/clear(k) over up to 3 sections (depth 5 quick, 6-7 thorough) at "
+        "terminal width 10 and random ones up to 40 ops at widths 5-20; after every op the emulated screen and cursor must equal the "
+        "model's stacked section contents; the same sequences on a plain output must give plain appended lines.",
+        "DESIGN.md 4 C15",
+        "The terminal emulator (vf/term.py) defines the terminal semantics assumed (deferred auto-wrap, tab stops of 8).",
+    ),
     "C12": (
         "bounded-exhaustive operation sequences + Hypothesis op lists against a list-based reference model of the dispatcher",
         "All 11^5 (quick) / 11^7 (thorough) register/dispatch sequences, each with and without queries after every step, plus "
